@@ -600,8 +600,24 @@ impl PacketReceiver for IceConn {
                                 .filter(|c| c.has_marker)
                                 .min_by_key(|c| c.first_seq);
 
+                            // Rules in the documented order: marker, consecutive
+                            // run, and only then - with the window used up and
+                            // still no clear winner - the majority.
+                            let run_winner = if total >= 3 {
+                                // Rule 2: consecutive dominance — at least 2
+                                // consecutive packets from one source and at
+                                // least 3 total observed.
+                                prob.candidates
+                                    .iter()
+                                    .find(|c| c.consecutive_count >= 2)
+                                    .map(|c| c.addr)
+                            } else {
+                                None
+                            };
                             if let Some(mw) = marker_winner {
                                 winner = Some(mw.addr);
+                            } else if run_winner.is_some() {
+                                winner = run_winner;
                             } else if total >= prob.max_packets {
                                 // Rule 3 (timeout fallback): pick the
                                 // candidate with the most packets; break
@@ -616,17 +632,7 @@ impl PacketReceiver for IceConn {
                                     })
                                     .map(|c| c.addr);
                             } else {
-                                // Rule 2: consecutive dominance — at
-                                // least 2 consecutive packets from one
-                                // source and at least 3 total observed.
-                                winner = if total >= 3 {
-                                    prob.candidates
-                                        .iter()
-                                        .find(|c| c.consecutive_count >= 2)
-                                        .map(|c| c.addr)
-                                } else {
-                                    None
-                                };
+                                winner = None;
                             }
 
                             if let Some(win_addr) = winner {
